@@ -56,17 +56,45 @@ def pictures(n, rowb, lowmask=0xFF):
     return pics
 
 
+SPACES = []  # choice trees of the reference encoders; filled by gen() before the worker pool is forked
+
+
 def add_space(run, cases, name, build, expect, feats, max_dev, tool):
-    ex = Explorer(build, max_dev=max_dev)
+    """Registers one encoder choice tree and splits it into independent work items: the default (greedy) encoding and one
+    subtree per first deviation (position, alternative); a worker explores its subtree to the remaining deviation budget,
+    decodes every distinct encoding with the real tool and judges it."""
+    si = len(SPACES)
+    SPACES.append({"name": name, "build": build, "expect": expect, "features": list(feats), "max_dev": max_dev, "tool": tool})
+    ch = core.Chooser(())
+    build(ch)
+    cases.append(("sub", si, (), 0))
+    n = 1
+    if max_dev:
+        zeros = ()
+        for pos, (c, arity) in enumerate(ch.trace):
+            for alt in range(1, arity):
+                cases.append(("sub", si, (0,) * pos + (alt,), max_dev))
+                n += 1
+    run.count("work_items:" + name.split(" ")[0], n)
+
+
+def explore_item(item, scratch):
+    """-> (stats, [result]) for one ("sub", space, prefix, budget) item"""
+    _, si, prefix, budget = item
+    sp = SPACES[si]
+    ex = Explorer(sp["build"], max_dev=budget, roots=[prefix])
     seen = set()
+    out = []
     for data, choices in ex:
         if data in seen:
             continue
         seen.add(data)
-        cases.append({"tool": tool, "data": data, "expect": expect, "features": feats + (["deviations:%d" % sum(1 for c in choices if c)]), "label": name, "choices": list(choices)})
-    run.add_explorer(ex)
-    run.count("encodings:" + name.split(" ")[0], len(seen))
-    run.count("choice_sequences", ex.leaves)
+        case = {"tool": sp["tool"], "data": data, "expect": sp["expect"], "label": sp["name"]}
+        oc = T.run_tool(sp["tool"], data, [], scratch)
+        v = judge(case, oc)
+        out.append({"label": sp["name"], "tool": sp["tool"], "features": sp["features"] + ["deviations:%d" % sum(1 for c in choices if c)], "choices": list(choices)[:400], "len": len(data),
+                    "head_hex": data[:48].hex(), "key": hash(data), "verdict": v})
+    return {"states": ex.states, "transitions": ex.transitions, "leaves": ex.leaves, "name": sp["name"]}, out
 
 
 def gen(run):
@@ -80,7 +108,7 @@ def gen(run):
     for nm in names:
         body = pics[nm]
         exp = ("pnm", F.expected_ppm_from_bytes(body, pal, 320, 200))
-        cases.append({"tool": "mge", "data": F.mge_raw_file(pal, body), "expect": exp, "features": ["mge", "raw-form"], "label": f"mge raw {nm}", "choices": []})
+        cases.append(("raw", {"tool": "mge", "data": F.mge_raw_file(pal, body), "expect": exp, "features": ["mge", "raw-form"], "label": f"mge raw {nm}", "choices": []}))
         add_space(run, cases, f"mge {nm}", lambda ch, body=body: F.mge_rle_file(pal, body, ch), exp, ["mge"], d, "mge")
     # ---------------- RAT (low nibbles < 8 so that the known `& 7` finding does not mask other defects)
     pics = pictures(199 * 160, 160, lowmask=0x77)
@@ -99,7 +127,7 @@ def gen(run):
             body = pics[nm]
             exp = ("pnm", F.expected_ppm_from_bytes(body, pal, 320, rows))
             if nm == "rowperiodic":
-                cases.append({"tool": "cm3", "data": F.cm3_raw_file(pal, body, two, True), "expect": exp, "features": ["cm3", "raw-form"], "label": f"cm3 raw {nm} two={two}", "choices": []})
+                cases.append(("raw", {"tool": "cm3", "data": F.cm3_raw_file(pal, body, two, True), "expect": exp, "features": ["cm3", "raw-form"], "label": f"cm3 raw {nm} two={two}", "choices": []}))
             add_space(run, cases, f"cm3 {nm} two={two}", lambda ch, body=body, two=two: F.cm3_coded_file(pal, body, ch, two, not two), exp, ["cm3"], d if not quick else 1, "cm3")
     # ---------------- VEF squashed
     for vt in (0, 1, 3):
@@ -108,7 +136,7 @@ def gen(run):
         for nm in (["boundaries", "literals"] if quick else ["boundaries", "spikes", "literals", "constant"]):
             body = pics[nm]
             exp = ("png", vt, pal, body)
-            cases.append({"tool": "vef", "data": F.vef_raw_file(pal, body, vt), "expect": exp, "features": ["vef", "raw-form"], "label": f"vef raw {nm} type={vt}", "choices": []})
+            cases.append(("raw", {"tool": "vef", "data": F.vef_raw_file(pal, body, vt), "expect": exp, "features": ["vef", "raw-form"], "label": f"vef raw {nm} type={vt}", "choices": []}))
             add_space(run, cases, f"vef {nm} type={vt}", lambda ch, body=body, vt=vt: F.vef_squashed_file(pal, body, vt, ch), exp, ["vef"], d, "vef")
     return cases
 
@@ -144,9 +172,15 @@ def judge(case, oc):
 
 def work(chunk):
     res = []
-    for case in chunk:
-        oc = T.run_tool(case["tool"], case["data"], [], work.scratch)
-        res.append(judge(case, oc))
+    for item in chunk:
+        if item[0] == "raw":
+            case = item[1]
+            oc = T.run_tool(case["tool"], case["data"], [], work.scratch)
+            v = judge(case, oc)
+            res.append((None, [{"label": case["label"], "tool": case["tool"], "features": case["features"], "choices": [], "len": len(case["data"]), "head_hex": case["data"][:48].hex(),
+                                "key": hash(case["data"]), "verdict": v}]))
+        else:
+            res.append(explore_item(item, work.scratch))
     return res
 
 
@@ -155,20 +189,28 @@ def run(run):
                 "is decoded by the real tool; non-trivial = encoding differs from the canonical greedy one or is the canonical one of a picture")
     run.assumptions = ["validity of an encoding is defined by the reference encoder (runs <= 255 / 127, terminator, escape rules, CM3 selector bits)",
                        "RAT pictures use low nibbles < 8 except the dedicated known-finding picture"]
-    cases = gen(run)
+    del SPACES[:]
+    items = gen(run)
     work.scratch = run.scratch_dir()
+    run.states += len(SPACES)
     i = 0
     keys = set()
-    for res in core.pmap(work, cases, chunk=2):
-        for v in res:
-            case = cases[i]
-            i += 1
-            run.evaluations += 1
-            keys.add(hash(case["data"]))
-            if i % 700 == 1:
-                run.sample({"label": case["label"], "choices": case["choices"][:60], "file_len": len(case["data"]), "head_hex": case["data"][:48].hex()})
-            if v:
-                run.violation(v[0], case["features"], {"tool": case["tool"], "label": case["label"], "choices": case["choices"], "data_len": len(case["data"])}, f"{case['label']} choices={case['choices'][:40]}: {v[1]}")
+    for res in core.pmap(work, items, chunk=1):
+        for stats, outs in res:
+            if stats:
+                run.states += stats["states"]
+                run.transitions += stats["transitions"]
+                run.count("choice_sequences", stats["leaves"])
+                run.count("encodings:" + stats["name"].split(" ")[0], len(outs))
+            for o in outs:
+                i += 1
+                run.evaluations += 1
+                keys.add(o["key"])
+                if i % 700 == 1:
+                    run.sample({"label": o["label"], "choices": o["choices"][:60], "file_len": o["len"], "head_hex": o["head_hex"]})
+                v = o["verdict"]
+                if v:
+                    run.violation(v[0], o["features"], {"tool": o["tool"], "label": o["label"], "choices": o["choices"], "data_len": o["len"]}, f"{o['label']} choices={o['choices'][:40]}: {v[1]}")
     run.distinct_n = len(keys)
     run.caps.append("deviation bound d=%d (choice sequences with more non-default encoder choices are not explored)" % (1 if run.tier == "quick" else 2))
 
